@@ -23,9 +23,11 @@ ARRAY_ASSUME = [
 ]
 
 HEALTH_ASSUME = [
-    "the heap given to the model is the set of slabs the slab iterator yields with all slabs loaded (non-nil entries of the storage view); the harness dumps it from the real storage through the verif hooks",
+    "slabs are reduced to (own ID, references): the references are read by the harness's OWN walk over the encoded register (no ChildStorables, no library decoder) and cross-checked against the library's ChildStorables enumeration on every slab of every world; the encoder is trusted here (C06/C07)",
     "ChildStorables() of caller-supplied storables lists exactly their child storables (harness value types do)",
-    "the model iterates the heap in list order where Go iterates maps in random order; theorems quantify over all heaps (all orders)",
+    "the model iterates heap / write set / cache in list order where Go iterates maps in random order, and flattens the ChildStorables traversal where Go interleaves it with lazy loads; theorems quantify over all heaps (all orders); error kinds are compared exactly (on a heap with unique keys the check that fires does not depend on the order unless the run diverges)",
+    "reference cycles: CheckStorageHealth / GetAllChildReferences / SlabIterator do not return on a cycle (observation, exercised under a watchdog); the model answers 'diverges' exactly there (allrefs_diverges_iff); cyclic storages are outside the property's domain",
+    "storages holding an array AND a map (or nested containers) are covered by theorem at the level of heaps only (independent_containers_accepted); the storage state machine is instantiated with one slab type per container kind",
 ]
 
 CODEC_ASSUME = [
@@ -169,8 +171,8 @@ PROPS = {
     "C20": {
         "streams": ["health"], "driver": {"health": "health"}, "level": "proof",
         "trusted_base": LEAN_TB, "assumptions": HEALTH_ASSUME,
-        "rule": "healthy storages (1-3 arrays at T=256, up to ~40 slabs, large values in own slabs, uncommitted and committed+reloaded) x each corruption kind (delete referenced: pending / committed / physical; extra unreferenced; double reference; foreign owner) at sampled slabs (all slabs in the thorough tier); distinct = distinct (label, heap) pairs",
-        "explanation": "Theorems: health_sound / health_complete (check accepts exactly the Healthy heaps and returns the true roots), four corruption theorems, allrefs_exact. Tie: every heap dumped from the real storage is checked by the model and the outcome compared with CheckStorageHealth / GetAllChildReferences. Oracle: an independent graph walker in Go.",
+        "rule": "healthy storages at T=256 of five kinds (1-3 arrays with large values | 1-2 maps, real digester, large values, oversized keys | maps with digest tables: inline and external collision groups | parents holding inlined arrays/maps with references, external groups and wrappers inside | empty), uncommitted and committed+reloaded, expected = n, n+1, 0, -1 x each corruption kind (delete referenced: pending / committed / physical; extra unreferenced; double reference incl. same slab / behind wrappers; foreign owner at every sibling position) at sampled slabs (all slabs in the thorough tier); partly loaded committed storages (roots only / random part / a root missing / an unloaded slab referenced twice); slab iterator yields; all-child-references on every root, healthy and with a deleted slab; distinct = distinct (label, heap) pairs",
+        "explanation": "Theorems (heap): health_sound / health_complete, four corruption theorems, allrefs_exact, allrefs_general (broken references, no Healthy hypothesis), allrefs_diverges_iff. Theorems (storage): iterator_sound / iterator_skips_deleted / iterator_exact (model of PersistentSlabStorage.SlabIterator on the C15 state machine), storage_check_is_heap_check, storage_complete; array_histories_healthy / array_histories_accepted, map_histories_healthy / map_histories_accepted (every storage produced by a valid single-container history is Healthy and accepted by iterator + check), independent_containers_accepted. Tie: every heap and every storage state (write set, cache, ledger) dumped from the real storage is run through the model (check on the heap; iterator + check on the state; iterator yields; all-child-references) and the outcome incl. the error kind compared with CheckStorageHealth / SlabIterator / GetAllChildReferences. Oracles: construction-time roots (a healthy world must be accepted with exactly its containers' roots, also for -1), an independent graph walker on the independently read heap, the check that has to fire per corruption, error category Fatal, ChildStorables vs register walk.",
     },
     "C15": {
         "streams": ["storage", "storageexh", "slabid"], "driver": {"storage": "storage", "storageexh": "storage", "slabid": "slabid"}, "level": "proof",
